@@ -44,3 +44,31 @@ func H_C02_odt_numeric_fields() {
 	}
 	vReach("end")
 }
+
+// H_C02_odt_style_parent_cycles: style inheritance written as a cycle - through the starting style or not - is resolved
+// in bounded time.
+//
+//symgo:harness prop=C02 kernel=odt-style-cycles hang=1 loop=5000 steps=50000000 noreplay=1
+//symgo:redirect archive/zip.OpenReader vStubOpenZip
+//symgo:desc zip layer cut (member content model); automatic paragraph styles P1, P2, P3 whose style:parent-style-name links form (enumerated) a chain P1->P2->P3, a self-loop P1->P1, a 2-cycle P1->P2->P1, a 3-cycle through the start P1->P2->P3->P1, or a cycle that does not pass through the start P1->P2->P3->P2; a paragraph and a heading in style P1: Open, Text and Markdown return within the loop bound 5000
+func H_C02_odt_style_parent_cycles() {
+	parents := [][3]string{{"P2", "P3", ""}, {"P1", "", ""}, {"P2", "P1", ""}, {"P2", "P3", "P1"}, {"P2", "P3", "P2"}}[vAnyIntIn(0, 4)]
+	styles := ""
+	for i, n := range []string{"P1", "P2", "P3"} {
+		par := ""
+		if parents[i] != "" {
+			par = ` style:parent-style-name="` + parents[i] + `"`
+		}
+		styles += `<style:style style:name="` + n + `" style:family="paragraph"` + par + `><style:paragraph-properties fo:text-align="start"/></style:style>`
+	}
+	vZip = &zip.ReadCloser{}
+	vMember("mimetype", "application/vnd.oasis.opendocument.text")
+	vMember("content.xml", `<?xml version="1.0"?><office:document-content `+vOdtNS+`><office:automatic-styles>`+styles+`</office:automatic-styles><office:body><office:text><text:h text:style-name="P1" text:outline-level="1">Head</text:h><text:p text:style-name="P1">Body text.</text:p></office:text></office:body></office:document-content>`)
+	r, err := Open("any.odt")
+	if err == nil && r != nil {
+		_, _ = r.Text()
+		_, _ = r.Markdown()
+		_ = r.Close()
+	}
+	vReach("end")
+}
